@@ -19,15 +19,18 @@ Proof. unfold upd; intros; destruct (Nat.eqb_spec m n); congruence. Qed.
 Lemma src_tenv e : src e -> forall (h : hist) (t : tenv), exists o h', forall t2 : tenv, eval e (h, t2) = (o, (h', t2)).
 Proof.
   induction e; simpl; try tauto; intros Hs h t.
-  - eauto.
+  - destruct v; try tauto. eauto.
   - eauto.
   - destruct Hs as [Hl Hr].
     destruct (IHe1 Hl h t) as (o1 & h1 & E1).
     destruct o1 as [a|a]; [|exists (Thr a), h1; intros; rewrite E1; reflexivity].
     destruct (IHe2 Hr h1 t) as (o2 & h2 & E2).
     destruct o2 as [b|b]; [|exists (Thr b), h2; intros; rewrite E1; simpl; rewrite E2; reflexivity].
-    destruct (respond h2 (EvAdd a b)) eqn:R;
-    [exists (Ret v)|exists (Thr v)]; exists (h2 ++ [EvAdd a b]); intros; rewrite E1; simpl; rewrite E2; simpl; unfold fire; rewrite R; reflexivity.
+    unfold do_add. destruct (pure_add a b) as [v|] eqn:PA.
+    + exists (Ret v), h2. intros; rewrite E1; simpl; rewrite E2; simpl. unfold do_add. rewrite PA. reflexivity.
+    + destruct (respond h2 (EvAdd a b)) eqn:R;
+      [exists (Ret v)|exists (Thr v)]; exists (h2 ++ [EvAdd a b]); intros; rewrite E1; simpl; rewrite E2; simpl;
+        unfold do_add, fire; rewrite PA, R; reflexivity.
   - destruct Hs as [Hl Hr].
     destruct (IHe1 Hl h t) as (o1 & h1 & E1).
     destruct o1 as [a|a]; [|exists (Thr a), h1; intros; rewrite E1; reflexivity].
@@ -37,15 +40,123 @@ Proof.
     [exists (Ret v)|exists (Thr v)]; exists (h2 ++ [EvCall a [b]]); intros; rewrite E1; simpl; rewrite E2; simpl; unfold fire; rewrite R; reflexivity.
 Qed.
 
-Lemma triv_eval e : is_triv e = true -> forall h, exists v, forall t : tenv, eval e (h, t) = (Ret v, (h, t)).
-Proof. destruct e; simpl; try discriminate; eauto. Qed.
+(** ** Operands that stay in place *)
+(** A sum of string literals: evaluates to a constant without any interaction. *)
+Fixpoint litsum (e : expr) : Prop :=
+  match e with
+  | Lit (VStr _) => True
+  | Add l r => litsum l /\ litsum r
+  | _ => False
+  end.
 
-Lemma rw_triv_src e c : src e -> is_triv (fst (rw e c)) = true -> rw e c = (e, c).
+Lemma litsum_eval e : litsum e -> exists s, forall (h : hist) (t : tenv), eval e (h, t) = (Ret (VStr s), (h, t)).
 Proof.
-  destruct e; simpl; try tauto; intros Hs.
-  - destruct (rw e1 c) as [l' c1]; destruct (rw e2 c1) as [r' c2].
-    destruct (is_triv l'), (is_triv r'); try destruct (is_lit l'); try destruct (is_lit r'); simpl; discriminate.
-  - destruct (rw e1 c) as [l' c1]; destruct (rw e2 c1) as [r' c2]; simpl; discriminate.
+  induction e; simpl; try tauto.
+  - destruct v; try tauto. eauto.
+  - intros [Hl Hr]. destruct (IHe1 Hl) as (s1 & E1). destruct (IHe2 Hr) as (s2 & E2).
+    exists (s1 ++ s2)%string. intros h t. rewrite E1. simpl. rewrite E2. simpl. reflexivity.
+Qed.
+
+(** Pure expressions: a value, no interaction, no write, in every state. *)
+Definition pure_expr (e : expr) : Prop := forall s : st, exists v, eval e s = (Ret v, s).
+
+Lemma pure_lit v : pure_expr (Lit v). Proof. intros s; simpl; eauto. Qed.
+Lemma pure_var x : pure_expr (Var x). Proof. intros s; simpl; eauto. Qed.
+Lemma pure_tmp n : pure_expr (Tmp n). Proof. intros s; simpl; eauto. Qed.
+Lemma pure_litsum e : litsum e -> pure_expr e.
+Proof. intros L [h t]. destruct (litsum_eval e L) as (s & E). rewrite E. eauto. Qed.
+
+Definition inplace (e : expr) : Prop := is_triv e = true \/ litsum e.
+
+Lemma pure_inplace e : inplace e -> pure_expr e.
+Proof.
+  intros [T | L]; [|apply pure_litsum; exact L].
+  destruct e; simpl in T; try discriminate; [apply pure_lit | apply pure_var].
+Qed.
+
+(** Constant operands: the same value in every state. *)
+Definition const_expr (e : expr) : Prop := exists v, forall s : st, eval e s = (Ret v, s).
+
+Lemma eval_hoist1 n e b (s : st) :
+  eval (Hoist1 n e b) s = bind (eval e s) (fun v s1 => eval b (fst s1, upd (snd s1) n v)).
+Proof. reflexivity. Qed.
+
+Lemma eval_add l r (s : st) :
+  eval (Add l r) s = bind (eval l s) (fun a s1 => bind (eval r s1) (fun b s2 => do_add respond a b s2)).
+Proof. reflexivity. Qed.
+
+Lemma eval_tmp n (s : st) : eval (Tmp n) s = (Ret (snd s n), s).
+Proof. reflexivity. Qed.
+
+Lemma hook_pure first args (s : st) :
+  Forall pure_expr args -> eval (Hook first args) s = eval first s.
+Proof.
+  intros F. simpl. destruct (eval first s) as [[v|v] s1]; simpl; [|reflexivity].
+  revert s1. induction F as [|a r Pa _ IH]; intros s1; [reflexivity|].
+  destruct (Pa s1) as (w & Ea). rewrite Ea. simpl. apply IH.
+Qed.
+
+(** The two possible results of rewriting a sum whose operands have been rewritten. *)
+Definition lit_or_sum (x : expr) : Prop := is_lit x = true \/ exists a b, x = Add a b.
+
+Lemma left_stay l' r' : left_act l' r' = Stay -> exists a b, l' = Add a b.
+Proof. destruct l'; simpl; try discriminate; eauto. destruct (is_triv r'); discriminate. Qed.
+Lemma right_stay l' r' : right_act l' r' = Stay -> exists a b, r' = Add a b.
+Proof. destruct r'; simpl; try discriminate; eauto. destruct l'; discriminate. Qed.
+
+Lemma rw_add_cases l' r' c2 :
+  (rw_add l' r' c2 = (Add l' r', c2) /\ lit_or_sum l' /\ lit_or_sum r') \/
+  (is_triv (fst (rw_add l' r' c2)) = false /\ forall a b, fst (rw_add l' r' c2) <> Add a b).
+Proof.
+  unfold rw_add, lit_or_sum.
+  destruct (left_act l' r') eqn:LA; destruct (right_act l' r') eqn:RA; cbn [app forallb fst snd wrap].
+  - destruct (is_lit l') eqn:L1; destruct (is_lit r') eqn:L2; cbn [andb fst snd];
+      [left; auto | right; split; [reflexivity | discriminate] ..].
+  - destruct (is_lit l') eqn:L1; cbn [andb fst snd];
+      [left; split; [reflexivity | split; [auto | right; apply (right_stay _ _ RA)]] | right; split; [reflexivity | discriminate]].
+  - rewrite Bool.andb_false_r. right; split; [reflexivity | discriminate].
+  - destruct (is_lit r') eqn:L2; cbn [andb fst snd];
+      [left; split; [reflexivity | split; [right; apply (left_stay _ _ LA) | auto]] | right; split; [reflexivity | discriminate]].
+  - left. split; [reflexivity | split; right; [apply (left_stay _ _ LA) | apply (right_stay _ _ RA)]].
+  - right; split; [reflexivity | discriminate].
+  - right; split; [reflexivity | discriminate].
+  - right; split; [reflexivity | discriminate].
+  - right; split; [reflexivity | discriminate].
+Qed.
+
+(** An operand that comes back from [rw] as a literal, an identifier or a [+] was not touched, and is
+    pure. *)
+Lemma rw_inplace_src : forall e c, src e ->
+  (is_triv (fst (rw e c)) = true \/ exists a b, fst (rw e c) = Add a b) ->
+  rw e c = (e, c) /\ inplace e.
+Proof.
+  induction e; intros c Hs Hk; simpl in Hs; try tauto.
+  - simpl. split; [reflexivity | left; reflexivity].
+  - simpl. split; [reflexivity | left; reflexivity].
+  - (* Add *)
+    destruct Hs as [Hl Hr]. simpl in *.
+    pose proof (IHe1 c Hl) as I1. destruct (rw e1 c) as [l' c1] eqn:R1. simpl in I1.
+    pose proof (IHe2 c1 Hr) as I2. destruct (rw e2 c1) as [r' c2] eqn:R2. simpl in I2.
+    destruct (rw_add_cases l' r' c2) as [(EQ & KL & KR) | (NT & NA)].
+    + assert (KL' : is_triv l' = true \/ exists a b, l' = Add a b).
+      { destruct KL as [KL | KL]; [left; destruct l'; simpl in *; try discriminate; reflexivity | right; exact KL]. }
+      assert (KR' : is_triv r' = true \/ exists a b, r' = Add a b).
+      { destruct KR as [KR | KR]; [left; destruct r'; simpl in *; try discriminate; reflexivity | right; exact KR]. }
+      destruct (I1 KL') as [E1 P1]. destruct (I2 KR') as [E2 P2]. inversion E1; inversion E2; subst.
+      split; [exact EQ|]. right. simpl. split.
+      * destruct KL as [KL | (a & b & ->)].
+        -- destruct e1; simpl in KL; try discriminate. simpl in Hl. destruct v; tauto.
+        -- destruct P1 as [P1 | P1]; [discriminate P1 | exact P1].
+      * destruct KR as [KR | (a & b & ->)].
+        -- destruct e2; simpl in KR; try discriminate. simpl in Hr. destruct v; tauto.
+        -- destruct P2 as [P2 | P2]; [discriminate P2 | exact P2].
+    + destruct Hk as [Hk | (a & b & Hk)]; [congruence | exfalso; eapply NA; exact Hk].
+  - (* CallE *)
+    simpl in Hk. destruct (rw e1 c) as [f' c1]. destruct (rw e2 c1) as [a' c2]. simpl in Hk.
+    destruct Hk as [Hk | (a & b & Hk)]; discriminate.
+  - (* Par *)
+    simpl in Hk. destruct (rw e c) as [x' c1]. simpl in Hk.
+    destruct Hk as [Hk | (a & b & Hk)]; discriminate.
 Qed.
 
 (* Main statement: same outcome, same history, and only temporaries of the allocated range are touched. *)
@@ -62,6 +173,20 @@ Ltac frame_tac :=
     | match goal with H : forall n, _ -> _ = _ |- _ => rewrite H by lia end ];
   auto.
 
+Lemma not_hoist_shape_l l' r' : left_act l' r' <> Hoist -> is_triv l' = true \/ exists a b, l' = Add a b.
+Proof. destruct l'; simpl; try congruence; eauto. Qed.
+
+Lemma not_hoist_shape_r l' r' : right_act l' r' <> Hoist -> is_triv r' = true \/ exists a b, r' = Add a b.
+Proof. destruct r'; simpl; try congruence; eauto. Qed.
+
+(** When the left operand stays and the right one is hoisted, the left one is a literal or a sum. *)
+Lemma stay_hoist_const l' r' : left_act l' r' <> Hoist -> right_act l' r' = Hoist ->
+  (exists v, l' = Lit v) \/ exists a b, l' = Add a b.
+Proof.
+  destruct l'; simpl; try congruence; eauto.
+  intros NL HR. destruct r'; simpl in *; try discriminate HR; exfalso; apply NL; reflexivity.
+Qed.
+
 Theorem rw_correct e : src e -> correct e.
 Proof.
   induction e; simpl; try tauto; intros Hs; unfold correct; intros c h t; cbn zeta.
@@ -69,67 +194,20 @@ Proof.
   - simpl. split; [lia|]. intros o h' E. exists t. split; [apply E|apply frame_refl].
   - (* Add *)
     destruct Hs as [Hl Hr].
-    pose proof (IHe1 Hl c) as I1. pose proof (rw_triv_src e1 c Hl) as P1.
+    pose proof (IHe1 Hl c) as I1. pose proof (rw_inplace_src e1 c Hl) as P1.
     simpl. destruct (rw e1 c) as [l' c1] eqn:Rl. simpl in I1, P1.
-    pose proof (IHe2 Hr c1) as I2. pose proof (rw_triv_src e2 c1 Hr) as P2.
+    pose proof (IHe2 Hr c1) as I2. pose proof (rw_inplace_src e2 c1 Hr) as P2.
     destruct (rw e2 c1) as [r' c2] eqn:Rr. simpl in I2, P2.
     assert (Hc1 : c <= c1) by (destruct (I1 h t); auto).
     assert (Hc2 : c1 <= c2) by (destruct (I2 h t); auto).
     destruct (src_tenv e1 Hl h t) as (o1 & h1 & E1).
-    assert (SRC : forall t2 : tenv, eval (Add e1 e2) (h, t2) =
-              bind (o1, (h1, t2)) (fun a s1 => bind (eval e2 s1) (fun b s2 => fire respond (EvAdd a b) s2)))
-      by (intros; simpl; rewrite E1; reflexivity).
-    destruct (is_triv l') eqn:Tl; destruct (is_triv r') eqn:Tr.
-    + (* both kept in place *)
-      specialize (P1 eq_refl); inversion P1; subst l' c1. specialize (P2 eq_refl); inversion P2; subst r' c2.
-      destruct (triv_eval e1 Tl h) as (a & Ea). destruct (triv_eval e2 Tr h) as (b & Eb).
-      destruct (is_lit e1 && is_lit e2); simpl.
-      * split; [lia|]. intros o h' E. exists t. split; [apply E|apply frame_refl].
-      * split; [lia|]. intros o h' E. exists t. split; [|apply frame_refl].
-        specialize (E t). simpl in E. rewrite Ea in *; simpl in *. rewrite Eb in *; simpl in *.
-        unfold fire in *. destruct (respond h (EvAdd a b)); simpl in *; inversion E; subst o h'; [|reflexivity].
-        destruct (triv_eval e1 Tl (h ++ [EvAdd a b])) as (a2 & Ea2); rewrite Ea2; simpl.
-        destruct (triv_eval e2 Tr (h ++ [EvAdd a b])) as (b2 & Eb2); rewrite Eb2; simpl. reflexivity.
-    + (* left in place / right effectful *)
-      specialize (P1 eq_refl); inversion P1; subst l' c1.
-      destruct (triv_eval e1 Tl h) as (a & Ea).
-      assert (o1 = Ret a /\ h1 = h) as [-> ->] by (specialize (E1 t); rewrite Ea in E1; inversion E1; auto).
-      destruct (src_tenv e2 Hr h t) as (o2 & h2 & E2).
-      destruct (is_lit e1) eqn:L1; simpl.
-      * split; [lia|]. intros o h' E.
-        destruct (I2 h t) as (_ & K2). destruct (K2 o2 h2 E2) as (t2 & Er & F2).
-        rewrite Er. specialize (E t). rewrite E1 in E. simpl in E. rewrite E2 in E. simpl in E.
-        destruct o2 as [b|b]; simpl in *.
-        -- destruct e1; try discriminate. simpl in *. rewrite upd_same.
-           pose proof (Ea t) as Ea0; inversion Ea0; subst v.
-           unfold fire in *. destruct (respond h2 (EvAdd a b)); simpl in *; inversion E; subst o h';
-           rewrite ?upd_same; simpl; eexists; (split; [reflexivity|frame_tac]).
-        -- inversion E; subst o h'. eexists; split; [reflexivity|frame_tac].
-      * split; [lia|]. intros o h' E. rewrite Ea. simpl.
-        destruct (I2 h (upd t c2 a)) as (_ & K2). destruct (K2 o2 h2 E2) as (t2 & Er & F2).
-        rewrite Er. specialize (E t). rewrite E1 in E. simpl in E. rewrite E2 in E. simpl in E.
-        destruct o2 as [b|b]; simpl in *.
-        -- rewrite upd_same.
-           assert (Hk : upd t2 (S c2) b c2 = a).
-           { rewrite upd_other by lia. rewrite F2 by lia. apply upd_same. }
-           rewrite Hk. unfold fire in *. destruct (respond h2 (EvAdd a b)); simpl in *; inversion E; subst o h';
-           rewrite ?Hk, ?upd_same; simpl; eexists; (split; [reflexivity|frame_tac]).
-        -- inversion E; subst o h'. eexists; split; [reflexivity|frame_tac].
-    + (* left hoisted / right in place *)
-      specialize (P2 eq_refl); inversion P2; subst r' c2. cbn [fst snd].
-      split; [lia|]. intros o h' E.
-      destruct (I1 h t) as (_ & K1). destruct (K1 o1 h1 E1) as (t1 & El & F1).
-      simpl. rewrite El. specialize (E t). rewrite E1 in E.
-      destruct o1 as [a|a]; simpl in *.
-      -- rewrite upd_same.
-         destruct (triv_eval e2 Tr h1) as (b & Eb). rewrite Eb in *; simpl in *.
-         unfold fire in *. destruct (respond h1 (EvAdd a b)); simpl in *; inversion E; subst o h';
-         rewrite ?upd_same; simpl; [|eexists; (split; [reflexivity|frame_tac])].
-         destruct (triv_eval e2 Tr (h1 ++ [EvAdd a b])) as (b2 & Eb2); rewrite Eb2; simpl.
-         eexists; (split; [reflexivity|frame_tac]).
-      -- inversion E; subst o h'. eexists; split; [reflexivity|frame_tac].
+    (* is the left / right operand hoisted? *)
+    assert (DL : left_act l' r' = Hoist \/ left_act l' r' <> Hoist) by (destruct (left_act l' r'); auto; right; discriminate).
+    assert (DR : right_act l' r' = Hoist \/ right_act l' r' <> Hoist) by (destruct (right_act l' r'); auto; right; discriminate).
+    destruct DL as [HL | NL]; destruct DR as [HR | NR].
     + (* both hoisted *)
-      cbn [fst snd]. split; [lia|]. intros o h' E.
+      unfold rw_add. rewrite HL, HR. cbn [app forallb is_lit andb fst snd wrap].
+      split; [lia|]. intros o h' E.
       destruct (I1 h t) as (_ & K1). destruct (K1 o1 h1 E1) as (t1 & El & F1).
       simpl. rewrite El. specialize (E t). rewrite E1 in E.
       destruct o1 as [a|a]; simpl in *; [|inversion E; subst o h'; eexists; split; [reflexivity|frame_tac]].
@@ -140,8 +218,69 @@ Proof.
       rewrite upd_same.
       assert (Hk : upd t2 (S c2) b c2 = a).
       { rewrite upd_other by lia. rewrite F2 by lia. apply upd_same. }
-      rewrite Hk. unfold fire in *. destruct (respond h2 (EvAdd a b)); simpl in *; inversion E; subst o h';
-      rewrite ?Hk, ?upd_same; simpl; eexists; (split; [reflexivity|frame_tac]).
+      rewrite Hk. unfold do_add in *. destruct (pure_add a b) as [v|].
+      * inversion E; subst o h'. rewrite ?Hk, ?upd_same. simpl. eexists; (split; [reflexivity|frame_tac]).
+      * unfold fire in *. destruct (respond h2 (EvAdd a b)); simpl in *; inversion E; subst o h';
+          rewrite ?Hk, ?upd_same; simpl; eexists; (split; [reflexivity|frame_tac]).
+    + (* left hoisted, right in place *)
+      destruct (P2 (not_hoist_shape_r l' r' NR)) as [Q2 IP2]. inversion Q2; subst r' c2.
+      assert (GEN : forall args, Forall pure_expr args ->
+                forall o h', (forall t2 : tenv, eval (Add e1 e2) (h, t2) = (o, (h', t2))) ->
+                exists t', eval (Hoist1 c1 l' (Hook (Add (Tmp c1) e2) args)) (h, t) = (o, (h', t')) /\ frame c (S c1) t t').
+      { intros args PA o h' E.
+        destruct (I1 h t) as (_ & K1). destruct (K1 o1 h1 E1) as (t1 & El & F1).
+        rewrite eval_hoist1, El. specialize (E t). rewrite eval_add, E1 in E.
+        destruct o1 as [a|a]; cbn [bind fst snd] in *;
+          [|inversion E; subst o h'; eexists; split; [reflexivity|frame_tac]].
+        rewrite (hook_pure _ _ PA). rewrite eval_add, eval_tmp. cbn [bind fst snd]. rewrite upd_same.
+        destruct (src_tenv e2 Hr h1 t) as (o2 & h2 & E2). rewrite E2 in *.
+        destruct o2 as [b|b]; cbn [bind] in *;
+          [|inversion E; subst o h'; eexists; split; [reflexivity|frame_tac]].
+        unfold do_add in *. destruct (pure_add a b) as [v|].
+        - inversion E; subst o h'. eexists; (split; [reflexivity|frame_tac]).
+        - unfold fire in *. destruct (respond h2 (EvAdd a b)); inversion E; subst o h';
+            eexists; (split; [reflexivity|frame_tac]). }
+      unfold rw_add. rewrite HL.
+      destruct (right_act l' e2) eqn:RA; try congruence; cbn [app forallb is_lit andb fst snd wrap];
+        (split; [lia|]); apply GEN; repeat constructor; try apply pure_tmp; apply pure_inplace; exact IP2.
+    + (* left in place (a literal or a sum of literals), right hoisted *)
+      destruct (P1 (not_hoist_shape_l l' r' NL)) as [Q1 IP1]. inversion Q1; subst l' c1.
+      assert (C1 : const_expr e1).
+      { destruct (stay_hoist_const e1 r' NL HR) as [(v & ->) | (a & b & ->)].
+        - exists v. intros s; reflexivity.
+        - destruct IP1 as [T | L]; [discriminate T|]. destruct (litsum_eval _ L) as (s0 & Es).
+          exists (VStr s0). intros [h0 t0]. apply Es. }
+      destruct C1 as (a & Ca).
+      assert (o1 = Ret a /\ h1 = h) as [-> ->] by (specialize (E1 t); rewrite Ca in E1; inversion E1; auto).
+      assert (GEN : forall args, Forall pure_expr args ->
+                forall o h', (forall t2 : tenv, eval (Add e1 e2) (h, t2) = (o, (h', t2))) ->
+                exists t', eval (Hoist1 c2 r' (Hook (Add e1 (Tmp c2)) args)) (h, t) = (o, (h', t')) /\ frame c (S c2) t t').
+      { intros args PA o h' E.
+        destruct (src_tenv e2 Hr h t) as (o2 & h2 & E2).
+        destruct (I2 h t) as (_ & K2). destruct (K2 o2 h2 E2) as (t2 & Er & F2).
+        rewrite eval_hoist1, Er. specialize (E t). rewrite eval_add, Ca in E. cbn [bind] in E. rewrite E2 in E.
+        destruct o2 as [b|b]; cbn [bind fst snd] in *;
+          [|inversion E; subst o h'; eexists; split; [reflexivity|frame_tac]].
+        rewrite (hook_pure _ _ PA). rewrite eval_add, Ca. cbn [bind]. rewrite eval_tmp. cbn [bind fst snd]. rewrite upd_same.
+        unfold do_add in *. destruct (pure_add a b) as [v|].
+        - inversion E; subst o h'. eexists; (split; [reflexivity|frame_tac]).
+        - unfold fire in *. destruct (respond h2 (EvAdd a b)); inversion E; subst o h';
+            eexists; (split; [reflexivity|frame_tac]). }
+      unfold rw_add. rewrite HR.
+      destruct (left_act e1 r') eqn:LA; try congruence; cbn [app forallb is_lit andb fst snd wrap];
+        try rewrite Bool.andb_false_r; cbn [fst snd wrap app];
+        (split; [lia|]); apply GEN; repeat constructor; try apply pure_tmp; apply pure_inplace; exact IP1.
+    + (* both in place: the sum itself, possibly wrapped in a hook call whose arguments are pure *)
+      destruct (P1 (not_hoist_shape_l l' r' NL)) as [Q1 IP1]. inversion Q1; subst l' c1.
+      destruct (P2 (not_hoist_shape_r e1 r' NR)) as [Q2 IP2]. inversion Q2; subst r' c2.
+      assert (PA : forall args, Forall (fun x => x = e1 \/ x = e2) args -> Forall pure_expr args).
+      { intros args F. eapply Forall_impl; [|exact F]. intros x [-> | ->]; apply pure_inplace; assumption. }
+      unfold rw_add.
+      destruct (left_act e1 e2) eqn:LA; try congruence; destruct (right_act e1 e2) eqn:RA; try congruence;
+        cbn [app fst snd wrap];
+        match goal with |- context [if ?b then _ else _] => destruct b end; cbn [fst snd wrap];
+        (split; [lia|]); intros o h' E; exists t; (split; [|apply frame_refl]);
+        try rewrite hook_pure by (apply PA; repeat constructor; auto); apply E.
   - (* CallE : congruence *)
     destruct Hs as [Hl Hr].
     pose proof (IHe1 Hl c) as I1. simpl. destruct (rw e1 c) as [l' c1] eqn:Rl. simpl in I1.
@@ -159,6 +298,8 @@ Proof.
     destruct o2 as [b|b]; simpl in *; [|inversion E; subst o h'; eexists; split; [reflexivity|frame_tac]].
     unfold fire in *. destruct (respond h2 (EvCall a [b])); simpl in *; inversion E; subst o h';
     eexists; (split; [reflexivity|frame_tac]).
+  - (* Par : transparent *)
+    pose proof (IHe Hs c h t) as I. simpl. destruct (rw e c) as [x' c1]. exact I.
 Qed.
 
 End Proofs.
